@@ -214,6 +214,10 @@ def run_case(case):
             if rng.random() < 0.4:
                 # ... and a slow link as well: 8 s of silence before every device WRTE, headers in one piece, payloads in many fragments of 0.3 s each
                 sc["dims"]["wrte_delay"] = 8.0
+                for st in sc["steps"]:
+                    if st["op"] == "streaming_shell":
+                        st["take"] = None         # (no abandoned generators either: their stream's next chunk is such a packet)
+                sc["dims"]["noise"] = []          # (a packet of another stream that is read more than read_timeout_s after read() began ends that read: legitimate, and only 2 s away here)
                 trickle = True
                 # (operations without a limit of their own on the whole exchange: a push waits at most read_timeout_s for its acknowledgement, whatever else arrives)
                 sc["steps"] = [st for st in sc["steps"] if st["op"] in ("list", "stat", "pull", "streaming_shell") and not st.get("timeout_s") and not st.get("cb")] or \
